@@ -143,8 +143,22 @@ var props = map[string]prop{
 		"reach.resolved.proof.era3", "reach.resolved.expire.era3", "reach.resolved.v2proof", "reach.resolved.v2expire", "reach.resolved.renewal", "probe.K3-v1-honest-era3.offered", "probe.K3-v1-honest-era2.offered", "probe.K3-v1-honest-era1.offered", "probe.K7-v2-honest.offered", "probe.K3-v1-other-file.offered", "probe.K7-v2-index-other-height.offered", "probe.K5-total-plus-1.offered", "probe.K6-final-plus-1.offered", "probe.K2-valid-sum-plus-1.offered", "probe.payout-checked", "fault.host-crash"),
 	"C08": e1prop("C08", 240, 6000, e1Case+"probe profile: for each height/time rule the adversary builds the transaction that is valid except for the rule and advances a private fork of a reachable state with empty blocks so that it is offered in the block at bound-1 (must be rejected) and at bound (must be accepted); after(t) is driven to median == t (reject) and t+1s (accept) with chosen timestamps.",
 		"probe.T3-maturity-early.offered", "probe.T3-maturity-at-bound.offered", "probe.T2-v1-timelock-early.offered", "probe.T2-v2-uc-timelock-at-bound.offered", "probe.P1-above-early.offered", "probe.P1-above-at-bound.offered", "probe.P1-after-at-T.offered", "probe.P1-after-T-plus-1.offered", "probe.T1-v1-after-require-at-bound.offered", "probe.T1-v2-before-allow-early.offered"),
-	"C11": e1prop("C11", 240, 6000, e1Case+"every block, state and transaction put on the simulated network or disk is checked at that moment: decode(encode(x)) re-encodes to identical bytes, encoding is repeatable, the bytes equal RefWire's independent statement of the layout (header, v1 block, v1/v2 transactions incl. the v2 field bitmap, policies, elements, contracts, resolutions, State with accumulator), and sampled proper prefixes (all prefixes for small messages) fail to decode. Limited: value space = what simulated traffic produces; RPC objects are engine E2's part.",
-		"probe.wire.block", "probe.wire.v1txn", "probe.wire.v2txn", "probe.wire.state", "probe.wire.truncation", "probe.wire.multiproof"),
+	"C11": func() prop {
+		p := e1prop("C11", 240, 6000, e1Case+"every block, state and transaction put on the simulated network or disk is checked at that moment: decode(encode(x)) re-encodes to identical bytes, encoding is repeatable, the bytes equal RefWire's independent statement of the layout (header, v1 block, v1/v2 transactions incl. the v2 field bitmap, policies, elements, contracts, resolutions, State with accumulator), and sampled proper prefixes (all prefixes for small messages) fail to decode. Limited: value space = what simulated traffic produces; RPC objects are engine E2's part.",
+		"probe.wire.block", "probe.wire.v1txn", "probe.wire.v2txn", "probe.wire.state", "probe.wire.truncation", "probe.wire.multiproof")
+		p.Rule += " Second part (engine E2): every rhp v2/v3/v4 request / response object and every gateway object, filled by reflection from the tape, decodes from its own encoding, re-encodes to identical bytes, and fails to decode from sampled proper prefixes (incl. empty and all-but-one byte)."
+		p.ExpectCounters = append(p.ExpectCounters, "codec.objects", "codec.prefixes")
+		p.Parts = append(p.Parts, part{Engine: "E2", Pkg: "sess", Profile: "C11", QuickRuns: 48000, QuickBudgetS: 40, ThoroughRuns: 2400000, ThoroughBudgetS: 600})
+		comps := map[string]string{}
+		for k, v := range p.Components {
+			comps[k] = v
+		}
+		for k, v := range e2Components {
+			comps[k] = v
+		}
+		p.Components = comps
+		return p
+	}(),
 	"C12": e1prop("C12", 240, 6000, e1Case+"world invariants (IDs recomputed from RefWire's layouts equal the library's for every transaction on the wire; an ID never changes when only proofs are refreshed by updates; every derived ID ever created is distinct, across kinds) plus probe rows: single-field rewrites of valid v1/v2 transactions must change the ID and input sighash iff the field is effect-bearing; derived IDs of distinct kinds/positions differ; the four v2 signature purposes hash differently and a signature made for one purpose is refused for another; a v1 transaction signed below the ASIC / Foundation / v2-allow boundary is refused when replayed above it; block rewrites with header fields kept are rejected or change the ID; a v2 block re-sealed on another parent state is rejected.",
 		"probe.I1-v1-output-address", "probe.I1-v1-signature-bytes", "probe.I1-v2-output-address", "probe.I1-v2-parent-proof", "probe.I1-v2-siafund-claim-address", "probe.I1-v2-revision-field", "probe.S2-asic-replayed.offered", "probe.S2-foundation-replayed.offered", "probe.S2-v2-allow-replayed.offered", "probe.B2-miner-address", "probe.B2-parent-state", "probe.S1-attestation-signed-with-input-sighash.offered"),
 	"C18": e1prop("C18", 240, 6000, e1Case+"every v2 block put on the wire goes through the multiproof codec and must come back with bit-identical proofs, ID and commitment; at sampled reachable states blocks with many parent kinds (pool transactions, revisions, resolutions with shared proof-index elements, ephemeral parents) are outlined with a tape-chosen withheld subset (none / some / all), sent through the real outline codec, and completed from partial, superset and permuted candidate pools: outline ID = block ID, Missing() exact after each step, completed block byte-identical to the original.",
